@@ -354,3 +354,156 @@ func (w *World) groundJSONShape() (fc *FuncCtx) {
 	}
 	return fc
 }
+
+// groundGuardedAccess (C10, completeness of the lock proof): every selector that resolves to a
+// guarded field anywhere in the module's non-test code must lie in a function that is verified
+// under the lock contracts of this run.
+func (w *World) groundGuardedAccess(verified map[string]bool) (fc *FuncCtx) {
+	pkg := w.Pkgs[repoModule+"/ipfix"]
+	fc = &FuncCtx{w: w, pkg: pkg, info: pkg.TypesInfo, key: repoModule + "/guarded", counter: map[string]int{}, allVars: map[*types.Var]bool{}, usedContracts: map[string]bool{},
+		contract: &Contract{Loops: map[int]*LoopContract{}, Opts: map[string]string{}, Pkg: pkg}}
+	st := &State{guard: "true", vars: map[types.Object]Term{}, alias: map[types.Object]ast.Expr{}, ghost: map[string]Term{}, held: map[string]string{}}
+	var paths []string
+	for p := range w.Pkgs {
+		paths = append(paths, p)
+	}
+	sort.Strings(paths)
+	for _, path := range paths {
+		p := w.Pkgs[path]
+		for _, f := range p.Syntax {
+			for _, d := range f.Decls {
+				fd, ok := d.(*ast.FuncDecl)
+				if !ok || fd.Body == nil {
+					continue
+				}
+				obj, _ := p.TypesInfo.Defs[fd.Name].(*types.Func)
+				if obj == nil {
+					continue
+				}
+				n := 0
+				ast.Inspect(fd.Body, func(nd ast.Node) bool {
+					sel, ok := nd.(*ast.SelectorExpr)
+					if !ok {
+						return true
+					}
+					s := p.TypesInfo.Selections[sel]
+					if s == nil || s.Kind() != types.FieldVal {
+						return true
+					}
+					recv := s.Recv()
+					if pt, ok := recv.Underlying().(*types.Pointer); ok {
+						recv = pt.Elem()
+					}
+					if w.Guarded[qualName(recv)+"."+sel.Sel.Name] {
+						n++
+					}
+					return true
+				})
+				// composite literals initialise a fresh, unpublished shard: not an access
+				if n == 0 {
+					continue
+				}
+				key := obj.FullName()
+				goal := "false"
+				if verified[key] {
+					goal = "true"
+				}
+				if c := w.Contracts[key]; c != nil && c.Opts["testonly"] != "" {
+					// exempt only if no non-test code refers to the function
+					used := false
+					for _, q := range w.Pkgs {
+						for id, o := range q.TypesInfo.Uses {
+							if o == obj {
+								_ = id
+								used = true
+							}
+						}
+					}
+					if !used {
+						goal = "true"
+					}
+				}
+				fc.obligeAt(st, "ground.guarded", shortKey(key), goal, shortPath(w.Fset.Position(fd.Pos()).String()), fmt.Sprintf("%s touches a lock-protected template map %d time(s): it must be verified under the lock contracts", shortKey(key), n))
+			}
+		}
+	}
+	return fc
+}
+
+// groundCacheTypes (C11, round trip): encoding/json reproduces a value exactly when its type is
+// built from exported integer/bool/string fields, slices, arrays, pointers, structs and maps with
+// integer or string keys; interface-typed or unexported data fields would be lost or altered.
+func (w *World) groundCacheTypes() (fc *FuncCtx) {
+	pkg := w.Pkgs[repoModule+"/ipfix"]
+	fc = &FuncCtx{w: w, pkg: pkg, info: pkg.TypesInfo, key: repoModule + "/cachetypes", counter: map[string]int{}, allVars: map[*types.Var]bool{}, usedContracts: map[string]bool{},
+		contract: &Contract{Loops: map[int]*LoopContract{}, Opts: map[string]string{}, Pkg: pkg}}
+	st := &State{guard: "true", vars: map[types.Object]Term{}, alias: map[types.Object]ast.Expr{}, ghost: map[string]Term{}, held: map[string]string{}}
+	var check func(t types.Type, path string, depth int, p *types.Package)
+	seen := map[string]bool{}
+	check = func(t types.Type, path string, depth int, p *types.Package) {
+		if depth > 10 {
+			return
+		}
+		switch u := t.Underlying().(type) {
+		case *types.Basic:
+			ok := u.Info()&(types.IsInteger|types.IsBoolean|types.IsString) != 0
+			goal := "true"
+			if !ok {
+				goal = "false"
+			}
+			if !ok {
+				fc.obligeAt(st, "ground.cachetypes", path, goal, "", path+": basic type "+u.Name()+" does not round-trip exactly through JSON")
+			}
+		case *types.Pointer:
+			check(u.Elem(), path, depth+1, p)
+		case *types.Slice:
+			check(u.Elem(), path+"[]", depth+1, p)
+		case *types.Array:
+			check(u.Elem(), path+"[]", depth+1, p)
+		case *types.Map:
+			kb, ok := u.Key().Underlying().(*types.Basic)
+			good := ok && kb.Info()&(types.IsInteger|types.IsString) != 0
+			goal := "true"
+			if !good {
+				goal = "false"
+			}
+			fc.obligeAt(st, "ground.cachetypes", path+".key", goal, "", path+": map key type "+types.TypeString(u.Key(), nil)+" is an integer or string (JSON object keys round-trip)")
+			check(u.Elem(), path+"{}", depth+1, p)
+		case *types.Struct:
+			k := types.TypeString(t, nil)
+			if seen[k] {
+				return
+			}
+			seen[k] = true
+			for i := 0; i < u.NumFields(); i++ {
+				f := u.Field(i)
+				fp := path + "." + f.Name()
+				if f.Embedded() && types.TypeString(f.Type(), nil) == "sync.RWMutex" {
+					fc.obligeAt(st, "ground.cachetypes", fp, "true", "", fp+": embedded mutex carries no data (it has no exported fields, nothing is encoded)")
+					continue
+				}
+				goal := "true"
+				if !f.Exported() {
+					goal = "false"
+				}
+				fc.obligeAt(st, "ground.cachetypes", fp, goal, "", fp+": field is exported, so encoding/json saves and restores it")
+				check(f.Type(), fp, depth+1, p)
+			}
+		case *types.Interface:
+			fc.obligeAt(st, "ground.cachetypes", path, "false", "", path+": interface-typed data loses its dynamic type in JSON")
+		default:
+			fc.obligeAt(st, "ground.cachetypes", path, "false", "", path+": type "+types.TypeString(t, nil)+" does not round-trip through JSON")
+		}
+	}
+	for _, path := range []string{repoModule + "/ipfix", repoModule + "/netflow/v9"} {
+		p := w.Pkgs[path]
+		tn, ok := p.Types.Scope().Lookup("memCacheDisk").(*types.TypeName)
+		if !ok {
+			fc.obligeAt(st, "ground.cachetypes", p.Name+".memCacheDisk", "false", "", "type memCacheDisk not found in package "+p.Name)
+			continue
+		}
+		seen = map[string]bool{}
+		check(tn.Type(), p.Name+".memCacheDisk", 0, p.Types)
+	}
+	return fc
+}
